@@ -1,5 +1,5 @@
 (* C13 — property theorems only. Every theorem is closed by [exact] of a lemma proved elsewhere. *)
-From KV Require Import Yaml.Split Yaml.SplitProofs Yaml.Annot Yaml.AnnotProofs
+From KV Require Import Yaml.Split Yaml.SplitProofs Yaml.Annot Yaml.AnnotProofs Yaml.Stream Yaml.StreamProofs
   Fs.Path Fs.PathProofs Fs.PkgWriter Fs.PkgWriterProofs.
 
 (* splitDocuments loses nothing: the documents, interleaved in order with the separators it cut out,
@@ -142,3 +142,38 @@ Theorem C13_delete_confined_sequences :
     exists f cs, In f files /\ cs <> [] /\ canon_comps cs = true /\ p = abs_of (pc ++ cs)%list.
 Proof. exact rw_run_deletes_confined. Qed.
 Print Assumptions C13_delete_confined_sequences.
+
+(* ---- text level: ByteReader.Read then ByteWriter.Write, bytes in, bytes out ----
+   go-yaml's decoder and encoder are parameters ([dec] : chunk -> document root or none, [enc] : document ->
+   "\n"-terminated text); everything kustomize itself does in between is modelled (Yaml/Stream.v).
+   [stable_doc dec enc n]: n is a well-formed, settled resource; dec (enc n) = n; enc n is a body followed by
+   "\n", free of CR, whose body holds no separator candidate — what an `emit_stable` fragment of YAML has to
+   guarantee about go-yaml.  The folded-scalar findings are exactly documents that are not stable in this
+   sense (dec (enc n) <> n for ">+" scalars; enc (dec (enc n)) <> enc n after a comment). *)
+
+(* the chunks handed to the decoder are exactly the documents a writer wrote *)
+Theorem C13_reader_chunks_of_written :
+  forall ds,
+    ds <> [] ->
+    Forall (fun d => exists b, d = add_nl b /\ plain_doc b = true /\ no_cr d = true) ds ->
+    reader_chunks (join_docs ds) = Ok ds.
+Proof. exact reader_chunks_of_written. Qed.
+Print Assumptions C13_reader_chunks_of_written.
+
+(* write (read s) = s, byte for byte, for a stream s of stable documents *)
+Theorem C13_text_roundtrip_stable :
+  forall (nonstr : string -> bool) (dec : string -> res (option node)) (enc : node -> string) ns,
+    ns <> [] -> Forall (stable_doc dec enc) ns ->
+    rt_stream nonstr dec enc (join_docs (map enc ns)) = Ok (join_docs (map enc ns)).
+Proof. exact rt_stream_stable. Qed.
+Print Assumptions C13_text_roundtrip_stable.
+
+(* write (read (write (read s))) = write (read s) whenever the first trip wrote stable documents *)
+Theorem C13_text_roundtrip_idempotent :
+  forall (nonstr : string -> bool) (dec : string -> res (option node)) (enc : node -> string) s ns0 ns out,
+    read_stream nonstr dec s = Ok ns0 ->
+    Forall2 (fun n0 n => write_clear n0 = Ok n) ns0 ns -> ns <> [] -> Forall (stable_doc dec enc) ns ->
+    rt_stream nonstr dec enc s = Ok out ->
+    out = join_docs (map enc ns) /\ rt_stream nonstr dec enc out = Ok out.
+Proof. exact rt_stream_idempotent. Qed.
+Print Assumptions C13_text_roundtrip_idempotent.
